@@ -171,10 +171,10 @@ end PSR
 
 namespace Sim
 
-def memAt (s : Sim) (a : W) : Word := s.mem[a.toNat]'(a.isLt)
-def setMem (s : Sim) (a : W) (w : Word) : Sim := { s with mem := s.mem.set a.toNat w a.isLt }
-def reg (s : Sim) (r : Reg) : Word := s.regs[r.toNat]'(r.isLt)
-def setReg (s : Sim) (r : Reg) (w : Word) : Sim := { s with regs := s.regs.set r.toNat w r.isLt }
+abbrev memAt (s : Sim) (a : W) : Word := s.mem[a.toNat]'(a.isLt)
+abbrev setMem (s : Sim) (a : W) (w : Word) : Sim := { s with mem := s.mem.set a.toNat w a.isLt }
+abbrev reg (s : Sim) (r : Reg) : Word := s.regs[r.toNat]'(r.isLt)
+abbrev setReg (s : Sim) (r : Reg) (w : Word) : Sim := { s with regs := s.regs.set r.toNat w r.isLt }
 
 def R6 : Reg := 6
 def R7 : Reg := 7
@@ -252,9 +252,8 @@ def ioWritePart (s : Sim) (addr : W) (data : Word) (strict : Bool) : Except Step
 def storePart (s : Sim) (addr : W) (data : Word) (ctx : Ctx) : Except StepBreak Unit × Sim :=
   let s :=
     if ctx.track then
-      let obs := obsUpdate s.observer addr OBS_WRITTEN
-      let obs := if s.memAt addr != data then obsUpdate obs addr OBS_MODIFIED else obs
-      { s with observer := obs }
+      -- WRITTEN always; MODIFIED when the stored word (value or mask) differs from the previous content
+      { s with observer := obsUpdate s.observer addr (OBS_WRITTEN ||| (bif s.memAt addr != data then OBS_MODIFIED else 0)) }
     else s
   match (s.memAt addr).setIfInit data ctx.strict SimErr.strictMemSetUninit with
   | .error e => (.error (.err e), s)
@@ -355,27 +354,21 @@ def realIntVect (vect : W) : Option StepBreak :=
   else if vect = 0x102 then some (.err .accessViolation)
   else none
 
-/-- `handle_interrupt(vect, priority)` -/
-def handleInterrupt (vect : W) (priority : Option Nat) : SimM Unit := do
+/-- the virtual-trap branch of `handle_interrupt`: restore the PC of the faulting instruction (if it was already
+    incremented), set `prefetch`, and break with halt / the exception's error -/
+def virtualBreak (brk : StepBreak) : SimM Unit := do
   let s ← getS
-  match priority with
-  | some p => if p ≤ PSR.priority s.psr then return ()
-  | none => pure ()
-  -- virtual traps
-  if !s.flags.realTraps then
-    match realIntVect vect with
-    | some brk =>
-      if !s.prefetch then
-        offsetPc 0xFFFF false
-        modifyS (fun s => { s with prefetch := true })
-      throwB brk
-    | none => pure ()
-  let s ← getS
-  if !PSR.privileged s.psr then
-    modifyS (fun s => { (s.setReg R6 s.savedSp) with savedSp := s.reg R6 })
-  let s ← getS
-  let oldPsr := s.psr
-  let oldPc := s.pc
+  if !s.prefetch then
+    offsetPc 0xFFFF false
+    modifyS (fun s => { s with prefetch := true })
+  throwB brk
+
+/-- `std::mem::swap(&mut self.saved_sp, &mut self.reg_file[R6])` -/
+def swapStacks (s : Sim) : Sim := { (s.setReg R6 s.savedSp) with savedSp := s.reg R6 }
+
+/-- the supervisor entry after the stack switch: privilege on, push old PSR then old PC at R6, R6 -= 2, CC := Z,
+    priority if an interrupt, jump through the vector table -/
+def enterCore (vect : W) (priority : Option Nat) (oldPsr oldPc : W) : SimM Unit := do
   modifyS (fun s => { s with psr := PSR.setPrivileged s.psr true })
   let s ← getS
   let mctx := s.defaultCtx
@@ -388,6 +381,27 @@ def handleInterrupt (vect : W) (priority : Option Nat) : SimM Unit := do
   | some p => modifyS (fun s => { s with psr := PSR.setPriority s.psr p })
   | none => pure ()
   callInterrupt vect (if priority.isSome then .interrupt else .trap)
+
+/-- the supervisor entry of `handle_interrupt`: switch stacks if coming from user mode, then `enterCore` with the
+    PSR and PC of the interrupted context -/
+def enterSupervisor (vect : W) (priority : Option Nat) : SimM Unit := fun s =>
+  enterCore vect priority s.psr s.pc (if !PSR.privileged s.psr then s.swapStacks else s)
+
+/-- the priority gate of `handle_interrupt`: an interrupt whose priority does not exceed the PSR's is ignored
+    (traps and exceptions, `priority = None`, always pass) -/
+def gated (s : Sim) : Option Nat → Bool
+  | some p => decide (p ≤ PSR.priority s.psr)
+  | none => false
+
+/-- `handle_interrupt(vect, priority)`: priority gate, then virtual traps (HALT / the three exceptions when
+    `use_real_traps` is off), otherwise the supervisor entry -/
+def handleInterrupt (vect : W) (priority : Option Nat) : SimM Unit := fun s =>
+  if s.gated priority then (.ok (), s)
+  else if !s.flags.realTraps then
+    match realIntVect vect with
+    | some brk => virtualBreak brk s
+    | none => enterSupervisor vect priority s
+  else enterSupervisor vect priority s
 
 /-- `set_cc(result)` -/
 def setCCOf (s : Sim) (result : W) : Sim :=
